@@ -49,6 +49,8 @@ def run(repo, chk):
     chk.rule('C14.F6', 'constant arms of the condition lowerings (truth_is_defeat / bool_expr_branch on a folded BoolValue) use the '
                        'same averting form and the same defeat target as their run-time arms - shared with C03.J1/J2')
     if chk.__class__.__name__ == 'Check':
+        from .. import condsim
+        condsim.decide(repo, chk, 'C14.F6', 'C14.F6', 'hidc/codegen/generator.py')
         from . import c03
 
         def cond_lowering(construct):
